@@ -58,10 +58,20 @@ impl CacheableKey for u32 { #[verifier::external_body] fn to_cache_key(&self) ->
 impl CacheableKey for String { #[verifier::external_body] fn to_cache_key(&self) -> String { unimplemented!() } }
 pub struct Recv { pub id: u32 }
 impl CacheableKey for Recv { #[verifier::external_body] fn to_cache_key(&self) -> String { unimplemented!() } }
+impl CacheableKey for Vec<u32> { #[verifier::external_body] fn to_cache_key(&self) -> String { unimplemented!() } }
+impl CacheableKey for (u32, u32) { #[verifier::external_body] fn to_cache_key(&self) -> String { unimplemented!() } }
 
 // ---------------------------------------------------------------- fixture bodies and predicates (user code: deterministic, assumed)
 pub uninterp spec fn body2_spec(a: u32, b: String) -> u64;
 #[verifier::external_body] pub fn body2(a: u32, b: String) -> (r: u64) ensures r == body2_spec(a, b) { unimplemented!() }
+pub uninterp spec fn body1_spec(a: u32) -> u64;
+#[verifier::external_body] pub fn body1(a: u32) -> (r: u64) ensures r == body1_spec(a) { unimplemented!() }
+pub uninterp spec fn body3_spec(a: u32, b: String, c: u32) -> u64;
+#[verifier::external_body] pub fn body3(a: u32, b: String, c: u32) -> (r: u64) ensures r == body3_spec(a, b, c) { unimplemented!() }
+pub uninterp spec fn body_v_spec(a: Vec<u32>, b: Vec<u32>) -> u64;
+#[verifier::external_body] pub fn body_v(a: Vec<u32>, b: Vec<u32>) -> (r: u64) ensures r == body_v_spec(a, b) { unimplemented!() }
+pub uninterp spec fn body_t_spec(p: (u32, u32), c: u32) -> u64;
+#[verifier::external_body] pub fn body_t(p: (u32, u32), c: u32) -> (r: u64) ensures r == body_t_spec(p, c) { unimplemented!() }
 pub uninterp spec fn body_res_spec(a: u32) -> Result<u64, String>;
 #[verifier::external_body] pub fn body_res(a: u32) -> (r: Result<u64, String>) ensures r == body_res_spec(a) { unimplemented!() }
 pub uninterp spec fn keep_spec(k: String, v: u64) -> bool;
@@ -98,6 +108,21 @@ pub broadcast axiom fn ax_cloned_eq<T: Clone>(a: T, b: T) ensures #[trigger] clo
 pub broadcast group group_wrap { ax_key_str, ax_bar_literal, b_join1, b_join2, b_join3, ax_cloned_eq }
 ''')
 
+AWAIT_SPEC = dict(kind='raw', label='await_spec', text='''
+// ---------------------------------------------------------------- suspension at the .await of the user body (C20, interference projection)
+/// While the call is suspended no lock is held (await obligations), so every other task may run any cache operation. Each of
+/// them preserves the representation invariant and the configuration (postconditions post_wf / cfg_frame of the engine units): that
+/// is the RELY condition stated here; everything else about store, queue and statistics is arbitrary afterwards.
+#[verifier::external_body]
+pub fn await_point<R: Clone>(c: &mut AsyncGlobalCache<R>)
+    ensures
+        final(c).limit == old(c).limit && final(c).max_memory == old(c).max_memory && final(c).policy == old(c).policy
+            && final(c).ttl == old(c).ttl && final(c).frequency_weight == old(c).frequency_weight,
+        wf(final(c).cache@, final(c).order@),
+        a_freq_far(final(c).cache@),
+{ }
+''')
+
 CB_SPEC = dict(kind='raw', label='callback_spec', text='''
 // ---------------------------------------------------------------- invalidation callbacks registered by the macros (C12, C13)
 /// R8: the key predicate handed to a conditional-invalidation callback (`&dyn Fn(&str) -> bool`) as an opaque value with a spec meaning
@@ -130,7 +155,8 @@ pub broadcast proof fn b_rm_seq_empty(q: Seq<String>, ks: Seq<String>)
 pub broadcast group group_cb { b_rm_seq_step, b_rm_seq_empty }
 ''')
 
-BODY_SPEC = {'body2(a, b)': 'body2_spec(a, b)', 'body_res(a)': 'body_res_spec(a)', '0': '0u64'}
+BODY_SPEC = {'body1(a)': 'body1_spec(a)', 'body3(a, b, c)': 'body3_spec(a, b, c)', 'body_v(a, b)': 'body_v_spec(a, b)', 'body_t((x, y), c)': 'body_t_spec(p0, c)',
+             'body2(a, b)': 'body2_spec(a, b)', 'body_res(a)': 'body_res_spec(a)', '0': '0u64'}
 HINT = (('fn_start',), 'wrap_axioms', 'broadcast use group_wrap;')
 
 
@@ -243,6 +269,31 @@ def contract(name, attrs, info, fixture_src):
     return req, ens
 
 
+def contract_await(name, attrs, info, fixture_src):
+    """Only schedule-independent clauses: what must hold whatever other tasks did while the call was suspended."""
+    req, _ens = contract(name, attrs, info, fixture_src)
+    K = key_expr(attrs)
+    M0, M1 = 'old(__cache).cache@', 'final(__cache).cache@'
+    V0, V1 = '%s[%s].0' % (M0, K), '%s[%s].0' % (M1, K)
+    HIT = '(%s.contains_key(%s) && !aexpired(%s[%s], old(__cache).ttl))' % (M0, K, M0, K)
+    RUNS0, RUNS1 = 'old(fx).body_runs@', 'final(fx).body_runs@'
+    RAN = '%s == %s + 1' % (RUNS1, RUNS0)
+    STORED = '(%s.contains_key(%s) && %s == ret)' % (M1, K, V1)
+    if attrs.get('max_memory') is not None:
+        STORED = '(ret.mem() <= old(__cache).max_memory->Some_0 ==> %s)' % STORED
+    accept = []
+    if attrs.get('cache_if'):
+        accept.append('%s_spec(%s, ret)' % (attrs['cache_if'], K))
+    elif attrs['is_result']:
+        accept.append('ret is Ok')
+    ens = [('post_wf', ['C20', 'C04'], 'wf(%s, final(__cache).order@)' % M1),
+           ('body_at_most_once', ['C20', 'C03'], '%s == %s || %s' % (RUNS1, RUNS0, RAN)),
+           ('resumed_call_stores_its_result', ['C20', 'C03', 'C01'], '(%s) ==> %s' % (' && '.join([RAN] + accept), STORED))]
+    if not attrs.get('invalidate_on'):
+        ens.append(('hit_is_served_before_any_suspension', ['C20', 'C03'], '%s ==> ret == %s && %s == %s' % (HIT, V0, RUNS1, RUNS0)))
+    return req, ens
+
+
 def norm(arg):
     arg = ' '.join(arg.split())
     arg = re.sub(r'\bcachelito_core\s*::\s*', '', arg)
@@ -311,8 +362,9 @@ def callback_items(name, info, flavour):
 CALLBACK_EQUIV = {}
 
 
-def build(flavour):
-    """Items of the wrapper unit of one flavour."""
+def build(flavour, await_interference=False):
+    """Items of the wrapper unit of one flavour. await_interference: the async wrappers with `await_point` (arbitrary
+    interference preserving the invariant) at the .await of the body, against the schedule-independent clauses only."""
     import importlib
     from contracts.units import engine_common  # noqa: F401
     exp = expand.expand_fixtures()
@@ -329,6 +381,8 @@ def build(flavour):
         else:
             items.append(it)
     items.append(WRAP_SPEC)
+    if await_interference:
+        items.append(AWAIT_SPEC)
     items.append(CB_SPEC)
     exp_stripped = exp
     seen_shapes, same_as = {}, []
@@ -337,17 +391,22 @@ def build(flavour):
         info = W.extract(exp_stripped, name, attrs)
         if info['scope'] != flavour:
             continue
-        req, ens = contract(name, attrs, info, fixture_src)
+        req, ens = (contract_await if await_interference else contract)(name, attrs, info, fixture_src)
         params = ''.join(', %s: %s' % (n, t) for n, t in attrs['params'])
         selfp = ', self_: &Recv' if attrs['has_self'] else ''
         sig = 'fn w_%s(__cache: &mut %s<%s>%s%s, fx: &mut Fx) -> %s ' % (name, fl['engine'], attrs['ret'], selfp, params, attrs['ret'])
         log = []
-        body = W.apply_tail_rules(info['tail'], attrs, log, info['tail_line'], 'w_' + name)
+        body = W.apply_tail_rules(info['tail'], attrs, log, info['tail_line'], 'w_' + name, await_interference=await_interference,
+                                  cache_static=re.sub(r'[^\w]', '', info['ctor_args'][0]) if info['scope'] == 'async' else None)
         body = re.sub(r'debug_fmt\(&self_\)', 'debug_fmt(self_)', body)
-        items.append(dict(kind='fn', name='w_' + name, label='wrapper::' + name, sig_text=sig, body_text='{\n' + body + '\n}', src_line=info['tail_line'],
+        rebind = ''.join('let %s = %s; ' % (pat, pn) for pn, pat in sorted(attrs.get('patterns', {}).items()))
+        if rebind:
+            log.append(dict(rule='R9.pattern_param', item='w_' + name, line=info['tail_line'], old=', '.join(attrs['patterns'].values()), new=rebind))
+            body = rebind + body
+        items.append(dict(kind='fn', name='w_' + name, label=('wrapper[await]::' if await_interference else 'wrapper::') + name, sig_text=sig, body_text='{\n' + body + '\n}', src_line=info['tail_line'],
                           src_file='macro-expansion of fixtures/src/lib.rs', ret='ret', requires=req, ensures=ens, hints=[HINT], pre_log=log,
-                          props=['C01', 'C02', 'C03', 'C09', 'C10', 'C11']))
-        if flavour in ('global', 'async'):
+                          props=['C20', 'C03'] if await_interference else ['C01', 'C02', 'C03', 'C09', 'C10', 'C11']))
+        if flavour in ('global', 'async') and not await_interference:
             info['ret'] = attrs['ret']
             cbs = callback_items(name, info, flavour)
             for cb in cbs:
